@@ -3,6 +3,7 @@ mod props;
 mod doc;
 mod frags;
 mod gen;
+mod kinds;
 mod pipeline;
 mod refsem;
 mod space;
